@@ -16,9 +16,9 @@ import (
 // ---------------------------------------------------------------- input
 
 type ArenaProfile struct {
-	SPC       int `json:"spc"`        // slots per chunk; vectorSize = (64 MiB - 64) / SPC
-	NIds      int `json:"nids"`       // logical ids 0..NIds-1
-	ThNum     int `json:"thnum"`      // compaction threshold ThNum/ThDen
+	SPC       int `json:"spc"`   // slots per chunk; vectorSize = (64 MiB - 64) / SPC
+	NIds      int `json:"nids"`  // logical ids 0..NIds-1
+	ThNum     int `json:"thnum"` // compaction threshold ThNum/ThDen
 	ThDen     int `json:"thden"`
 	MoveBound int `json:"move_bound"` // relocations after which a running cycle is declared non-terminating
 	Readers   int `json:"readers"`    // >0: that many goroutines read every live id while each cycle runs
@@ -524,7 +524,13 @@ func (s *session) apply(op ArenaOp, res *Result) (outcome string, notes []string
 			notes = append(notes, fmt.Sprintf("compaction lock acquired %d times, released %d times", da, dr))
 		}
 		for _, b := range bad {
-			notes = append(notes, fmt.Sprintf("BADREAD id=%d read=%d want=%d reread=%d", b.ID, b.V, b.Want, b.Re))
+			if b.Re == b.Want {
+				// the slice was valid when GetBytes returned it and a fresh GetBytes reads the right value: the vector
+				// was relocated and its old slot reused between GetBytes and the dereference (timing dependent)
+				notes = append(notes, fmt.Sprintf("STALE id=%d read=%d want=%d (concurrent reader; a fresh GetBytes then read %d)", b.ID, b.V, b.Want, b.Re))
+			} else {
+				notes = append(notes, fmt.Sprintf("BADREAD id=%d read=%d want=%d reread=%d", b.ID, b.V, b.Want, b.Re))
+			}
 		}
 	case "ReadPtr":
 		b, e := s.arena.GetBytes(id)
